@@ -3,66 +3,6 @@ import Pcore.Proofs.SerWf
     (reference-free form of the) value it stands for.  Property theorems are in `Pcore/Props/C10.lean`. -/
 namespace Pcore.Ser
 
-/-! ### what a stream means once its references are resolved -/
-
-mutual
-/-- resolve the back-references of one event; `env` holds, per position consumed so far, the resolved event at that
-    position (`none` while the container at that position is still open).  Fails on a reference to a position that
-    does not exist yet or is still open. -/
-def expand : Ev → List (Option Ev) → Option (Ev × List (Option Ev))
-  | .add d, env => some (.add d, env ++ [some (.add d)])
-  | .ref n, env =>
-    match env[n]? with
-    | some (some x) => some (x, env)
-    | _ => none
-  | .arr es, env =>
-    match expandList es (env ++ [none]) with
-    | none => none
-    | some (es', env1) => some (.arr es', env1.set env.length (some (.arr es')))
-  | .hsh es, env =>
-    match expandList es (env ++ [none]) with
-    | none => none
-    | some (es', env1) => some (.hsh es', env1.set env.length (some (.hsh es')))
-def expandList : List Ev → List (Option Ev) → Option (List Ev × List (Option Ev))
-  | [], env => some ([], env)
-  | e :: es, env =>
-    match expand e env with
-    | none => none
-    | some (e', env1) =>
-      match expandList es env1 with
-      | none => none
-      | some (es', env2) => some (e' :: es', env2)
-end
-
-/-! ### the reference-free stream -/
-
-def ptypeEv : Ev := .add (.str "__ptype")
-def pvalueEv : Ev := .add (.str "__pvalue")
-def typed (tn : String) (x : Ev) : Ev := .hsh [ptypeEv, .add (.str tn), pvalueEv, x]
-
-mutual
-/-- what the serializer emits for `v` when nothing is de-duplicated (independent of level and state) -/
-def plain (c : Cfg) : V → Ev
-  | .undef => .add .undef | .bool b => .add (.bool b) | .int i => .add (.int i) | .flt f => .add (.flt f)
-  | .str s => .add (.str s)
-  | .dflt => if c.rich then .hsh [ptypeEv, .add (.str "Default")] else .add (.str "default")
-  | .hash _ es =>
-    if c.cplx || allStrKeys es then .hsh (plainPairs c es)
-    else if c.rich then typed "Hash" (.arr (plainPairs c es))
-    else .hsh (plainSKeys c es)
-  | .arr _ vs => .arr (plainList c vs)
-  | .sens _ v => if c.rich then typed "Sensitive" (plain c v) else .add (.str sensitiveText)
-  | .bin _ bs =>
-    if c.bin then .add (.bin bs) else if c.rich then typed "Binary" (.add (.str (b64 bs))) else .add (.str (b64 bs))
-  | .leaf _ k enc disp => if c.rich then typed k.typeName (.add (.str enc)) else .add (.str disp)
-def plainList (c : Cfg) : List V → List Ev
-  | [] => [] | v :: vs => plain c v :: plainList c vs
-def plainPairs (c : Cfg) : List (V × V) → List Ev
-  | [] => [] | (k, v) :: es => plain c k :: plain c v :: plainPairs c es
-def plainSKeys (c : Cfg) : List (V × V) → List Ev
-  | [] => [] | (k, v) :: es => .add (.str k.disp) :: plain c v :: plainSKeys c es
-end
-
 /-! ### sharing hypothesis: equal identities denote equal values
 
 `F` assigns to every identity the reference-free event of the value carrying it; `Coh c F v` says every node of `v`
